@@ -212,3 +212,102 @@ func init() {
 			}
 		}})
 }
+
+func init() {
+	register(Suite{Name: "c12-large", Property: "C12",
+		Rule: "generated shapes in which one body part or file carries 32 KiB .. 200 KiB (lengths around 32768 and 65536 included), every transfer encoding; the destination fails at sampled offsets (uniform, and within +-1 of every multiple of 4096 / 32768 / 65536 of the output) after a short write; checks: no panic, err != nil, returned count == bytes the destination accepted; the unlimited render returns the full length; oracle only (no model line: the sweep of the model is exhaustive on the small shapes); distinct by (shape, offset)",
+		Run: func(c *Ctx) {
+			shapes := c.N(12, 400)
+			sizes := []int{32767, 32768, 32769, 40000, 49152, 65535, 65536, 65537, 100000, 200000}
+			for i := 0; i < shapes; i++ {
+				r := c.Rng
+				spc := genSpec(r, genOpts{maxParts: 2, maxFiles: 2, noFails: true, smallContent: true})
+				spc.Boundary = ""
+				big := make([]byte, sizes[r.Intn(len(sizes))])
+				switch r.Intn(3) {
+				case 0:
+					for j := range big {
+						big[j] = byte(r.Intn(256))
+					}
+				case 1:
+					for j := range big {
+						big[j] = "abcdefghij klmnop\r\n=."[r.Intn(21)]
+					}
+				default:
+					for j := range big {
+						big[j] = byte('a' + j%26)
+					}
+				}
+				where := "file"
+				if len(spc.Files) > 0 && r.Chance(70) {
+					spc.Files[r.Intn(len(spc.Files))].Content = big
+				} else if len(spc.Parts) > 0 {
+					spc.Parts[r.Intn(len(spc.Parts))].Content = big
+					where = "part"
+				} else {
+					spc.Files = append(spc.Files, FileSpec{Attach: true, Name: "big.bin", Content: big})
+				}
+				fixedEntropy(spc)
+				m, _, err := spc.Build()
+				if err != nil {
+					continue
+				}
+				full := renderOnce(m, -1)
+				if full.panic != nil || full.err != nil {
+					c.Violate("c12-full-render", fmt.Sprintf("unlimited render failed: %v %v", full.panic, full.err), map[string]interface{}{"shape": spc.shape(), "size": len(big)})
+					continue
+				}
+				L := len(full.out)
+				offs := map[int]bool{}
+				for k := 0; k < 24; k++ {
+					offs[r.Intn(L)] = true
+				}
+				for _, step := range []int{4096, 32768, 65536} {
+					for base := step; base < L && len(offs) < 120; base += step {
+						if step == 4096 && !r.Chance(10) {
+							continue
+						}
+						for d := -1; d <= 1; d++ {
+							if base+d >= 0 && base+d < L {
+								offs[base+d] = true
+							}
+						}
+					}
+				}
+				for k := range offs {
+					mk, _, err := spc.Build()
+					if err != nil {
+						break
+					}
+					res := renderOnce(mk, k)
+					c.rep.OracleChecked++
+					in := map[string]interface{}{"shape": spc.shape(), "large": where, "size": len(big), "output_length": L, "k": k, "spec_without_content": specSummary(spc)}
+					switch {
+					case res.panic != nil:
+						c.Violate("c12-panic", fmt.Sprintf("WriteTo panicked with the destination failing at offset %d: %v", k, res.panic), in)
+					case res.err == nil:
+						c.Violate("c12-silent-success", fmt.Sprintf("WriteTo returned nil although the destination failed at offset %d of %d", k, L), in)
+					case int(res.n) != len(res.out):
+						c.Violate("c12-count", fmt.Sprintf("WriteTo returned %d but the destination accepted %d bytes (limit %d, output %d bytes)", res.n, len(res.out), k, L), in)
+					}
+					c.Count(true, fmt.Sprintf("%d/%d/%s", i, k, spc.shape()), fmt.Sprintf("large-%s:%s", where, spc.shape()))
+				}
+			}
+		}})
+}
+
+// specSummary: the spec with large contents replaced by their length (for replay files)
+func specSummary(sp *MsgSpec) map[string]interface{} {
+	var parts, files []string
+	for _, p := range sp.Parts {
+		enc := ""
+		if p.Enc != nil {
+			enc = *p.Enc
+		}
+		parts = append(parts, fmt.Sprintf("%s enc=%q %d bytes", p.CType, enc, len(p.Content)))
+	}
+	for _, f := range sp.Files {
+		files = append(files, fmt.Sprintf("attach=%v %q enc=%q source=%q %d bytes", f.Attach, f.Name, f.Enc, f.Source, len(f.Content)))
+	}
+	return map[string]interface{}{"encoding": sp.Encoding, "charset": sp.Charset, "parts": parts, "files": files}
+}
